@@ -133,6 +133,8 @@ def run(tier, seed, replay):
         rep.extra.update({"jobs": len(jobs), "outcomes": counts, "plan": stats, "compiler": " ".join(gxx), "pointer_mode": gxx_mode})
         rep.assumptions += ["g++ 12 -fsyntax-only on x86_64 stands in for the wasi-sdk clang++ crates/test uses",
                             "generator errors/panics are C16's business and counted as inconclusive here"]
+        if replay:
+            compz.replay_floor(rep, FLOORS, tier)
     finally:
         vcommon.rm_scratch(work)
     return rep
